@@ -216,6 +216,27 @@ def gen_rttm(rng):
 
 
 # ------------------------------------------------------------------------------------------------ (d) TextGrid
+def _history(case, names):
+    """What happened to the continuum before the import, and in how many calls the import is made: the readers add to
+    whatever is there."""
+    prior = case.get("prior")
+    extra = {"units": {("ann", 99990.5, 99991.5, "prior unit")}, "other-annotator": {("someone else", 1.0, 2.0, "x")}}.get(prior, set())
+
+    def prepare(c):
+        from pyannote.core import Segment
+        if prior == "registered":
+            c.add_annotator("ann")
+        elif prior == "units":
+            c.add("ann", Segment(99990.5, 99991.5), "prior unit")
+        elif prior == "other-annotator":
+            c.add("someone else", Segment(1.0, 2.0), "x")
+    selections = [case["selected"]]
+    if prior == "twice" and len(names) >= 2:
+        h = len(names) // 2
+        selections = [names[:h], names[h:]]
+    return prepare, extra, selections
+
+
 def check_textgrid(ctx, case):
     from textgrid import TextGrid, IntervalTier, PointTier
     from pygamma_agreement import Continuum
@@ -233,25 +254,29 @@ def check_textgrid(ctx, case):
         p.add(1.5, "a point")
         tg.append(p)
     tg.write(path)
-    selected = case["selected"]
-    if case.get("point_tier") and selected is None:
-        selected = [n for n, _ in case["tiers"]]
+    prepare, extra, selections = _history(case, [n for n, _ in case["tiers"]])
+    if case.get("point_tier"):
+        selections = [[n for n, _ in case["tiers"]] if sel is None else sel for sel in selections]
+    ctx.observe("import_history", str(case.get("prior")))
+    selected = selections
     try:
         for tier_as_label in (False, True):
-            exp = set()
+            exp = set(extra)
             for name, intervals in case["tiers"]:
-                if selected is not None and name not in selected:
+                if not any(sel is None or name in sel for sel in selections):
                     continue
                 for s, e, mark in intervals:
                     if mark:
                         exp.add(("ann", float(s), float(e), name if tier_as_label else mark))
             c = Continuum()
-            c.add_textgrid("ann", path, selected_tiers=selected, use_tier_as_annotation=tier_as_label)
+            prepare(c)
+            for sel in selections:
+                c.add_textgrid("ann", path, selected_tiers=sel, use_tier_as_annotation=tier_as_label)
             got = units_set(c)
             if got != exp:
                 ctx.fail("textgrid-units-differ-from-the-file", {"lost": sorted(exp - got, key=repr)[:3],
                                                                  "unexpected": sorted(got - exp, key=repr)[:3],
-                                                                 "tier_as_label": tier_as_label, "selected": selected},
+                                                                 "tier_as_label": tier_as_label, "selected": selected, "prior": case.get("prior")},
                          monitor="M-TEXTGRID")
     except Exception as e:
         ctx.fail_exc(f"textgrid-read-raises:{type(e).__name__}", e, monitor="M-TEXTGRID")
@@ -274,7 +299,13 @@ def gen_textgrid(rng):
             t = e
         tiers.append([name, ivs])
     sel = None if rng.random() < 0.4 else rng.sample(names, rng.randint(0, len(names)))   # [] selects nothing
-    return {"kind": "textgrid", "tiers": tiers, "selected": sel, "point_tier": rng.random() < 0.3}
+    if len(tiers) >= 2 and rng.random() < 0.35:
+        # aligned tiers (words / part of speech): the same boundaries, other marks
+        src = rng.randrange(len(tiers))
+        dst = rng.choice([i for i in range(len(tiers)) if i != src])
+        tiers[dst][1] = [[s_, e_, rng.choice(["", "N", "V", "hello world", "a"])] for s_, e_, _ in tiers[src][1]]
+    return {"kind": "textgrid", "tiers": tiers, "selected": sel, "point_tier": rng.random() < 0.3,
+            "prior": rng.choice([None, None, "registered", "units", "other-annotator", "twice"])}
 
 
 # ------------------------------------------------------------------------------------------------ (e) ELAN
@@ -290,21 +321,25 @@ def check_elan(ctx, case):
             eaf.add_annotation(name, s, e, v)
     eaf.remove_tier("default")
     eaf.to_file(path)
+    prepare, extra, selections = _history(case, [n for n, _ in case["tiers"]])
+    ctx.observe("import_history", str(case.get("prior")))
     try:
         for tier_as_label in (False, True):
-            exp = set()
+            exp = set(extra)
             for name, anns in case["tiers"]:
-                if case["selected"] is not None and name not in case["selected"]:
+                if not any(sel is None or name in sel for sel in selections):
                     continue
                 for s, e, v in anns:
                     exp.add(("ann", float(s), float(e), name if tier_as_label else v))
             c = Continuum()
-            c.add_elan("ann", path, selected_tiers=case["selected"], use_tier_as_annotation=tier_as_label)
+            prepare(c)
+            for sel in selections:
+                c.add_elan("ann", path, selected_tiers=sel, use_tier_as_annotation=tier_as_label)
             got = units_set(c)
             if got != exp:
                 ctx.fail("elan-units-differ-from-the-file", {"lost": sorted(exp - got, key=repr)[:3],
                                                              "unexpected": sorted(got - exp, key=repr)[:3],
-                                                             "tier_as_label": tier_as_label, "selected": case["selected"]},
+                                                             "tier_as_label": tier_as_label, "selected": selections, "prior": case.get("prior")},
                          monitor="M-ELAN")
     except Exception as e:
         ctx.fail_exc(f"elan-read-raises:{type(e).__name__}", e, monitor="M-ELAN")
@@ -324,7 +359,12 @@ def gen_elan(rng):
             anns.add((s, s + rng.randrange(1, 5000), rng.choice(["a", "b c", "ünï", "12", 'q"', "<tag>&amp;"])))
         tiers.append([name, [list(a) for a in sorted(anns)]])
     sel = None if rng.random() < 0.4 else rng.sample(names, rng.randint(0, len(names)))   # [] selects nothing
-    return {"kind": "elan", "tiers": tiers, "selected": sel}
+    if len(tiers) >= 2 and rng.random() < 0.35:
+        src = rng.randrange(len(tiers))
+        dst = rng.choice([i for i in range(len(tiers)) if i != src])
+        tiers[dst][1] = [[s_, e_, rng.choice(["N", "V", "b c", "a"])] for s_, e_, _ in tiers[src][1]]
+    return {"kind": "elan", "tiers": tiers, "selected": sel,
+            "prior": rng.choice([None, None, "registered", "units", "other-annotator", "twice"])}
 
 
 CHECKS = {"roundtrip": check_roundtrip, "csv-read": check_csv_read, "rttm": check_rttm, "textgrid": check_textgrid,
